@@ -70,3 +70,43 @@ Proof. exact (forall2b_sound xrel_b lfr_xrel xrel_b_sound xs1 xs2). Qed.
 (** what the harness evaluates on the logged inputs of the two runs, cut after the looser run's first drift
     ([mkb] of Corr_C06 builds the bounds records) *)
 Definition chk_lfr_pair (xs1 xs2 : list (@lfr_input NumFloat)) : bool := lfr_related_b xs1 xs2.
+
+(** ---- the same for a pair of warning levels (run 1 = looser warning), over the whole run ---- *)
+Definition wbrel_b (b1 b2 : @bounds NumFloat) : bool :=
+  feq (lb_detect b1) (lb_detect b2) && feq (ub_detect b1) (ub_detect b2) &&
+  PrimFloat.leb (lb_warn b2) (lb_warn b1) && PrimFloat.leb (ub_warn b1) (ub_warn b2).
+Definition worel_b (o1 o2 : @oracle_row NumFloat) : bool :=
+  let '(e1, d1, k1, s1) := o1 in let '(e2, d2, k2, s2) := o2 in
+  feq e1 e2 && (d1 =? d2)%Z && feq k1 k2 &&
+  match s1, s2 with
+  | Some b1, Some b2 => wbrel_b b1 b2
+  | None, None => true
+  | _, _ => false
+  end.
+Definition wxrel_b (x1 x2 : @lfr_input NumFloat) : bool :=
+  let '(yt1, yp1, o1) := x1 in let '(yt2, yp2, o2) := x2 in
+  Bool.eqb yt1 yt2 && Bool.eqb yp1 yp2 && forall2b worel_b o1 o2.
+Definition chk_lfr_wpair (xs1 xs2 : list (@lfr_input NumFloat)) : bool := forall2b wxrel_b xs1 xs2.
+
+Lemma wbrel_b_sound b1 b2 : wbrel_b b1 b2 = true -> wbrel b1 b2.
+Proof.
+  unfold wbrel_b, wbrel. intros H. repeat (apply andb_true_iff in H; destruct H as [H ?]).
+  repeat split; try (apply feq_true; assumption); assumption.
+Qed.
+Lemma worel_b_sound o1 o2 : worel_b o1 o2 = true -> worel o1 o2.
+Proof.
+  destruct o1 as [[[e1 d1] k1] s1], o2 as [[[e2 d2] k2] s2]. unfold worel_b, worel. simpl. intros H.
+  apply andb_true_iff in H. destruct H as [H Hs]. apply andb_true_iff in H. destruct H as [H Hk].
+  apply andb_true_iff in H. destruct H as [He Hd].
+  split; [apply feq_true; exact He|]. split; [apply Z.eqb_eq; exact Hd|]. split; [apply feq_true; exact Hk|].
+  destruct s1, s2; try discriminate; [apply wbrel_b_sound; exact Hs | exact I].
+Qed.
+Lemma wxrel_b_sound x1 x2 : wxrel_b x1 x2 = true -> lfr_wxrel x1 x2.
+Proof.
+  destruct x1 as [[yt1 yp1] o1], x2 as [[yt2 yp2] o2]. unfold wxrel_b, lfr_wxrel. simpl. intros H.
+  apply andb_true_iff in H. destruct H as [H Ho]. apply andb_true_iff in H. destruct H as [H1 H2].
+  split; [apply Bool.eqb_prop; exact H1|]. split; [apply Bool.eqb_prop; exact H2|].
+  exact (forall2b_sound worel_b worel worel_b_sound _ _ Ho).
+Qed.
+Theorem chk_lfr_wpair_sound xs1 xs2 : chk_lfr_wpair xs1 xs2 = true -> Forall2 lfr_wxrel xs1 xs2.
+Proof. exact (forall2b_sound wxrel_b lfr_wxrel wxrel_b_sound xs1 xs2). Qed.
